@@ -1,6 +1,6 @@
 import Adlt.Lc.Drv
-/-! glue for the pipeline area (C13). case: `c0 c1 c2 c3 c4 | producer pacing | consumer pacing | drop sort filterEcu | <lc case>`
-    obs: `B <seq> | <table> # U <seq> | <table> # term=<0|1>`  (B = bounded channels with pacing, U = unbounded reference) -/
+/-! glue for the pipeline area (C13). case: `c0 c1 c2 c3 c4 | producer pacing | consumer pacing | drop sort filterEcu tail | <lc case>`
+    obs: `B <seq> | <table> # U <seq> | <table> # term=<0|1> # perr=<1|0|->` (perr: a live producer - `tail` > 0 - got a send error after the consumer had gone)  (B = bounded channels with pacing, U = unbounded reference) -/
 namespace Net
 open Util Lcm
 
@@ -8,14 +8,15 @@ structure PCase where
   drop : Int
   sort : Bool
   filterEcu : Int
+  tail : Int
   ms : List Msg
 
 def parsePCase (s : String) : PCase :=
   match s.splitOn "|" with
   | [_, _, _, o, m] =>
     let os := (fields o " ").map int!
-    { drop := os.getD 0 (-1), sort := os.getD 1 0 == 1, filterEcu := os.getD 2 (-1), ms := Lcm.parseCase m.trimAscii.toString }
-  | _ => { drop := -1, sort := false, filterEcu := -1, ms := [] }
+    { drop := os.getD 0 (-1), sort := os.getD 1 0 == 1, filterEcu := os.getD 2 (-1), tail := os.getD 3 0, ms := Lcm.parseCase m.trimAscii.toString }
+  | _ => { drop := -1, sort := false, filterEcu := -1, tail := 0, ms := [] }
 
 /-- the sequential composition: lifecycle detection, (no plugins), [sort: compared as a set], positive ECU filter -/
 def sequential (c : PCase) : String :=
@@ -37,11 +38,13 @@ def doLine (line : String) : String :=
     | _ => ("", "")
   let c := parsePCase cs
   let m := sequential c
-  let mobs := s!"B {m} # U {m} # term=1"
+  let live := c.tail > 0
+  let mobs := s!"B {m} # U {m} # term=1 # perr={if live then "1" else "-"}"
   let parts := impl.splitOn " # "
-  let (b, u, t) := match parts with
-    | [b, u, t] => ((b.drop 2).toString, (u.drop 2).toString, t)
-    | _ => ("", "", "")
+  let (b, u, t, pe) := match parts with
+    | [b, u, t] => ((b.drop 2).toString, (u.drop 2).toString, t, "perr=-")
+    | [b, u, t, pe] => ((b.drop 2).toString, (u.drop 2).toString, t, pe)
+    | _ => ("", "", "", "")
   let dropped := c.drop ≥ 0
   let bSeq := fields (seqPart b) " "
   let uSeq := fields (seqPart u) " "
@@ -51,11 +54,12 @@ def doLine (line : String) : String :=
     else if t != "term=1" then "C13=FAIL:stage-does-not-terminate"
     else if !dropped && b != u then (if seqPart b != seqPart u then "C13=FAIL:bounded-sequence-differs-from-unbounded" else "C13=FAIL:final-table-differs")
     else if dropped && !c.sort && !isPrefix then "C13=FAIL:delivered-not-a-prefix"
+    else if live && pe != "perr=1" then "C13=FAIL:live-producer-not-stopped-after-consumer-loss"
     else "C13=ok"
   -- after consumer loss only termination and the prefix property are specified
-  let canon := if dropped && (c.sort || isPrefix) && t == "term=1" then s!"B {u} # U {u} # term=1" else impl
+  let canon := if dropped && (c.sort || isPrefix) && t == "term=1" then s!"B {u} # U {u} # term=1 # {pe}" else impl
   let tags : List String :=
-    (if dropped then ["consumer-lost"] else []) ++ (if c.sort then ["sorted"] else []) ++
+    (if dropped then ["consumer-lost"] else []) ++ (if live then ["live-source"] else []) ++ (if c.sort then ["sorted"] else []) ++
     (if c.filterEcu ≥ 0 then ["filtered"] else []) ++
     (if ((cs.splitOn "|").headD "").splitOn " " |>.any (· == "0") then ["rendezvous"] else []) ++
     (if (fields ((cs.splitOn "|").headD "") " ").any (fun x => x == "1" || x == "2") then ["tiny-capacity"] else [])
